@@ -6,9 +6,9 @@
     [InteractiveShell::execute_line].  The parser is an oracle ([parse_class], a [Section]
     variable): what is modelled is how its verdict is *classified* and what the front-end does
     with the classification.  The classification tables are regenerated from the Rust source
-    (gen/IncompleteTables.v). *)
+    (gen/C15Incomplete.v). *)
 From Coq Require Import String.
-From BV Require Import Base.Prelude Modes.Classes gen.IncompleteTables.
+From BV Require Import Base.Prelude Modes.Classes gen.C15Incomplete.
 
 (** Verdict of [Shell::parse_string] on a text. *)
 Inductive pclass :=
